@@ -196,6 +196,8 @@ def gen_input(rng, kind, tier):
     med = all_len[len(all_len) // 2]
     if any(ri > 0 and ls[0] >= 3 * med and ls[0] >= 100 for ri, (_, ls) in enumerate(runs)):
         feats.append("long_first_line")
+    if any(ri > 0 and ls[0] > runs[ri - 1][1][-1] for ri, (_, ls) in enumerate(runs)):
+        feats.append("run_first_line_longer_than_previous_line")
     if extra:
         feats.append("unused_chroms_in_sizes")
     feats.append("final_newline" if final_newline else "no_final_newline")
@@ -466,8 +468,11 @@ def _parallel_why(stderr):
 
 
 def _feature(inp):
-    f = [x for x in ("last_chrom_single_line", "long_first_line") if x in inp["feats"]]
-    return "+".join(f) if f else "unexplained"
+    """Shape of the input that the chromosome indexer is known to mishandle (priority order; detail has all features)."""
+    for x in ("last_chrom_single_line", "run_first_line_longer_than_previous_line"):
+        if x in inp["feats"]:
+            return x
+    return "other_shape"
 
 
 # ------------------------------------------------------------------- case --
